@@ -2,9 +2,10 @@
 EXTENDS MemTraceAbs, TraceCommon
 VARIABLES l, nnew
 Ev == TraceLog[l]
-TReset == Ev.e = "Reset" /\ live' = << >> /\ moving' = << >> /\ level' = 0 /\ nnew' = << >>
-TSetup == Ev.e = "Setup" /\ level' = Ev.level /\ UNCHANGED <<live, moving, nnew>>
+TReset == Ev.e = "Reset" /\ live' = << >> /\ outside' = << >> /\ moving' = << >> /\ level' = 0 /\ nnew' = << >>
+TSetup == Ev.e = "Setup" /\ level' = Ev.level /\ UNCHANGED <<live, outside, moving, nnew>>
 TAcq == Ev.e = "Acq" /\ Acq(Ev) /\ UNCHANGED nnew
+TAcqOutside == Ev.e = "AcqOutside" /\ AcqOutside(Ev) /\ UNCHANGED nnew
 TRelBegin == Ev.e = "RelBegin" /\ RelBegin(Ev.id) /\ UNCHANGED nnew
 TRelEnd == Ev.e = "RelEnd" /\ RelEnd(Ev) /\ UNCHANGED nnew
 TReallocBegin == /\ Ev.e = "ReallocBegin" /\ ReallocBegin(Ev.id, Ev.nold)
@@ -16,7 +17,7 @@ TUnwrapped == Ev.e = "Unwrapped" /\ Ev.same = 1 /\ UNCHANGED <<mvars, nnew>>
 TDestroyed == Ev.e = "Destroyed" /\ Destroyed(Ev) /\ UNCHANGED nnew
 TEnd == Ev.e = "End" /\ Ev.live = 0 /\ Ev.unjoined = 0 /\ UNCHANGED <<mvars, nnew>>
 TNext == l <= TraceLen /\ l' = l + 1 /\
-         (TReset \/ TSetup \/ TAcq \/ TRelBegin \/ TRelEnd \/ TReallocBegin \/ TReallocEnd \/ TQuery \/ TDump
+         (TReset \/ TSetup \/ TAcq \/ TAcqOutside \/ TRelBegin \/ TRelEnd \/ TReallocBegin \/ TReallocEnd \/ TQuery \/ TDump
             \/ TUnwrapped \/ TDestroyed \/ TEnd)
-TSpec == (l = 1 /\ live = << >> /\ moving = << >> /\ level = 0 /\ nnew = << >>) /\ [][TNext]_<<mvars, nnew, l>>
+TSpec == (l = 1 /\ live = << >> /\ outside = << >> /\ moving = << >> /\ level = 0 /\ nnew = << >>) /\ [][TNext]_<<mvars, nnew, l>>
 =============================================================================
